@@ -28,6 +28,7 @@ ASSUMPTIONS = ['coefficient tolerance 100 eps (r + steps + 10) r max(1,|B|max) '
     '|A[I]|max (backward-stable construction, no conditioning factor)', 'swap count read by a line probe on '
     '"I[j] = i"; if the probe target is missing the dominance monitor is '
     'inconclusive']
+COVER = ['maxvol.maxvol', 'maxvol.maxvol_rect', 'utils._maxvol']
 SHARDS = {'quick': 12, 'thorough': 16}
 
 _probe = {'p': None}
